@@ -2,10 +2,28 @@
 //! `hx <prop> exec`                       — read scripts on stdin, run them against the real
 //!                                          implementation in /repo, print annotated transcripts
 //!
-//! Script / transcript format: see /verif/DESIGN.md §2 (line protocol).
+//! Script / transcript format: see /verif/DESIGN.md §2 (line protocol) and AGENT_GUIDE.md.
 mod rng;
 mod util;
 mod c01;
+mod c02;
+mod c04;
+mod c05;
+mod c06;
+mod c07;
+mod c08;
+mod c09;
+mod c10;
+mod c11;
+mod c12;
+mod c13;
+mod c14;
+mod c15;
+mod c16;
+mod c17;
+mod c18;
+mod c19;
+mod c20;
 
 use std::io::Read;
 
@@ -16,7 +34,9 @@ fn main() {
         std::process::exit(2);
     }
     // panics inside the implementation are expected observations; keep stderr quiet
-    std::panic::set_hook(Box::new(|_| {}));
+    if std::env::var("HX_PANIC_MSG").is_err() {
+        std::panic::set_hook(Box::new(|_| {}));
+    }
     let prop = args[1].as_str();
     let mode = args[2].as_str();
     match mode {
@@ -27,6 +47,24 @@ fn main() {
             let thorough = tier == "thorough";
             let out = match prop {
                 "c01" | "c03" => c01::gen(seed, count, thorough, prop == "c03"),
+                "c02" => c02::gen(seed, count, thorough),
+                "c04" => c04::gen(seed, count, thorough),
+                "c05" => c05::gen(seed, count, thorough),
+                "c06" => c06::gen(seed, count, thorough),
+                "c07" => c07::gen(seed, count, thorough),
+                "c08" => c08::gen(seed, count, thorough),
+                "c09" => c09::gen(seed, count, thorough),
+                "c10" => c10::gen(seed, count, thorough),
+                "c11" => c11::gen(seed, count, thorough),
+                "c12" => c12::gen(seed, count, thorough),
+                "c13" => c13::gen(seed, count, thorough),
+                "c14" => c14::gen(seed, count, thorough),
+                "c15" => c15::gen(seed, count, thorough),
+                "c16" => c16::gen(seed, count, thorough),
+                "c17" => c17::gen(seed, count, thorough),
+                "c18" => c18::gen(seed, count, thorough),
+                "c19" => c19::gen(seed, count, thorough),
+                "c20" => c20::gen(seed, count, thorough),
                 _ => {
                     eprintln!("unknown property {prop}");
                     std::process::exit(2);
@@ -39,6 +77,24 @@ fn main() {
             std::io::stdin().read_to_string(&mut input).unwrap();
             let out = match prop {
                 "c01" | "c03" => c01::exec(&input),
+                "c02" => c02::exec(&input),
+                "c04" => c04::exec(&input),
+                "c05" => c05::exec(&input),
+                "c06" => c06::exec(&input),
+                "c07" => c07::exec(&input),
+                "c08" => c08::exec(&input),
+                "c09" => c09::exec(&input),
+                "c10" => c10::exec(&input),
+                "c11" => c11::exec(&input),
+                "c12" => c12::exec(&input),
+                "c13" => c13::exec(&input),
+                "c14" => c14::exec(&input),
+                "c15" => c15::exec(&input),
+                "c16" => c16::exec(&input),
+                "c17" => c17::exec(&input),
+                "c18" => c18::exec(&input),
+                "c19" => c19::exec(&input),
+                "c20" => c20::exec(&input),
                 _ => {
                     eprintln!("unknown property {prop}");
                     std::process::exit(2);
